@@ -14,12 +14,13 @@ import RnaVerif.Driver.FindPairsOps
 import RnaVerif.Driver.PureExtOps
 import RnaVerif.Driver.ToolsOps
 import RnaVerif.Driver.FnOps
+import RnaVerif.Driver.AllDBImplOps
 /-! Line protocol over stdin/stdout: one tab-separated request per line, one response line each.
 Imports model modules only (core Lean) so that it links as a native executable. -/
 open RnaVerif
 
 def handlers : List (String → List String → Option String) :=
-  [Driver.SecStrOps.handle, Driver.TableOps.handle, Driver.LabelsOps.handle, Driver.TorsionOps.handle, Driver.MappingOps.handle, Driver.PdbOps.handle, Driver.GeomOps.handle, Driver.PdbV1Ops.handle, Driver.GlueOps.handle, Driver.PairsOps.handle, Driver.ReadersOps.handle, Driver.MotionOps.handle, Driver.FindPairsOps.handle, Driver.PureExtOps.handle, Driver.ToolsOps.handle, Driver.FnOps.handle, Driver.FnOps.handleSpec]
+  [Driver.SecStrOps.handle, Driver.TableOps.handle, Driver.LabelsOps.handle, Driver.TorsionOps.handle, Driver.MappingOps.handle, Driver.PdbOps.handle, Driver.GeomOps.handle, Driver.PdbV1Ops.handle, Driver.GlueOps.handle, Driver.PairsOps.handle, Driver.ReadersOps.handle, Driver.MotionOps.handle, Driver.FindPairsOps.handle, Driver.PureExtOps.handle, Driver.ToolsOps.handle, Driver.FnOps.handle, Driver.FnOps.handleSpec, Driver.AllDBImplOps.handle]
 
 def respond (line : String) : String :=
   let line := if line.endsWith "\n" then (line.dropEnd 1).toString else line
